@@ -85,8 +85,9 @@ type ssaRendering struct {
 	ShortHour     bool     `json:"short_hour"`
 	ColorMode     int      `json:"color_mode"` // 0 decimal, 1 &H hex 8 digits upper, 2 &H hex lower, 3 hex minimal digits (>=6), 4 negative decimal when alpha>=0x80
 	Tertiary      bool     `json:"tertiary"`
-	BreakUpper    bool     `json:"break_upper"`            // \N instead of \n
-	BreakMix      bool     `json:"break_mix,omitempty"`    // both forms inside one event, alternating
+	BreakUpper    bool     `json:"break_upper"`         // \N instead of \n
+	BreakMix      bool     `json:"break_mix,omitempty"` // both forms inside one event, alternating
+	LeadComment   bool     `json:"lead_comment,omitempty"`
 	ForeignCols   bool     `json:"foreign_cols,omitempty"` // the Format lines list a column of another tool's dialect too (ignored, cells and all)
 	Junk          bool     `json:"junk"`
 	UnknownSec    bool     `json:"unknown_section"`
@@ -208,8 +209,14 @@ func renderSSA(d ssaDoc, r ssaRendering) []byte {
 		emit("Style: ghost,Arial")
 		emit("")
 	}
+	comments := d.Comments
+	if r.LeadComment && !r.UnknownSec && len(comments) > 0 {
+		// a comment ahead of the first section header (a tool's banner)
+		emit("; " + comments[0])
+		comments = comments[1:]
+	}
 	emit(r.InfoHeader)
-	for _, c := range d.Comments {
+	for _, c := range comments {
 		emit("; " + c)
 	}
 	for _, k := range ssaInfoKeys {
@@ -762,7 +769,7 @@ func genSSADoc(t *rapid.T, write bool) (ssaDoc, map[string]bool) {
 	}
 	nc := rapid.SampledFrom([]int{0, 0, 1, 2}).Draw(t, "ncomments")
 	for i := 0; i < nc; i++ {
-		d.Comments = append(d.Comments, rapid.SampledFrom([]string{"Script generated by x", "http://example.com/a:b", "comment; with semicolon", "注释"}).Draw(t, "comment"))
+		d.Comments = append(d.Comments, rapid.SampledFrom([]string{"Script generated by x", "http://example.com/a:b", "comment; with semicolon", "注释", ";;; banner ;;;", "; ;x", ";"}).Draw(t, "comment"))
 	}
 	// columns shared by all styles in the read direction; heterogeneous in the write direction
 	cols := map[string]bool{}
@@ -858,6 +865,7 @@ func genSSARendering(t *rapid.T, cols map[string]bool) ssaRendering {
 		BreakUpper:    rapid.Bool().Draw(t, "breakupper"),
 		BreakMix:      rapid.IntRange(0, 3).Draw(t, "breakmix") == 0,
 		ForeignCols:   rapid.IntRange(0, 4).Draw(t, "foreigncols") == 0,
+		LeadComment:   rapid.IntRange(0, 3).Draw(t, "leadcomment") == 0,
 		Junk:          rapid.Bool().Draw(t, "junk"),
 		UnknownSec:    rapid.Bool().Draw(t, "unknownsec"),
 		OtherEvents:   rapid.Bool().Draw(t, "otherevents"),
